@@ -167,7 +167,11 @@ func subjects(thorough bool) []subject {
 	k := 0
 	gen.DynTwoScope(func(u *gen.Universe) {
 		k++
-		if len(u.Docs) == 0 && k%(stride/4+1) == 0 {
+		// always: the roots where one path falls back to the lexical target of an off-chain
+		// $dynamicRef while the other path overrides it (state memoised by one call would flip the other)
+		m := u.Meta
+		targeted := m["offchain"] == 1 && m["ka"] == 0 && m["kb"] != 0 && m["kf"] != 0 && m["kr"] != 0
+		if len(u.Docs) == 0 && (targeted || k%(stride/4+1) == 0) {
 			t := u.Root
 			out = append(out, subject{"doc " + t, func() *jsonschema.Schema {
 				var s jsonschema.Schema
